@@ -28,7 +28,6 @@ import (
 	blankhost "github.com/libp2p/go-libp2p/p2p/host/blank"
 	"github.com/libp2p/go-libp2p/p2p/host/eventbus"
 	"github.com/libp2p/go-libp2p/p2p/host/peerstore/pstoremem"
-	rcmgr "github.com/libp2p/go-libp2p/p2p/host/resource-manager"
 	"github.com/libp2p/go-libp2p/p2p/muxer/yamux"
 	"github.com/libp2p/go-libp2p/p2p/net/swarm"
 	tptu "github.com/libp2p/go-libp2p/p2p/net/upgrader"
@@ -97,7 +96,7 @@ func c07Identity(name string) (c07Ident, error) {
 type c07Node struct {
 	h     host.Host
 	basic *BasicHost // nil for a BlankHost
-	rm    network.ResourceManager
+	rm    *c07RM     // the real resource manager behind a pass-through recorder (see c07RM)
 	id    peer.ID
 	extra []io.Closer // what BlankHost.Close does not close
 }
@@ -111,7 +110,7 @@ func (n *c07Node) close() {
 
 // c07NewNode builds one host: a BasicHost (identify, optimistic negotiation from peerstore knowledge), or with
 // blank=true a BlankHost (no identify: every open negotiates).
-func c07NewNode(nw *c07Net, name string, listen, limitedDialer, blank bool) (*c07Node, error) {
+func c07NewNode(nw *c07Net, name string, listen, limitedDialer, blank bool, lim c07Lim) (*c07Node, error) {
 	ident, err := c07Identity(name)
 	if err != nil {
 		return nil, err
@@ -126,8 +125,8 @@ func c07NewNode(nw *c07Net, name string, listen, limitedDialer, blank bool) (*c0
 	if err := ps.AddPrivKey(ident.id, ident.priv); err != nil {
 		return nil, err
 	}
-	// REAL resource manager, nothing limited (the property is about which scope is charged, not about limits).
-	rm, err := rcmgr.NewResourceManager(rcmgr.NewFixedLimiter(rcmgr.InfiniteLimits), rcmgr.WithMetricsDisabled())
+	// REAL resource manager; lim bounds the inbound streams per protocol of the universe (zero value: nothing limited).
+	rm, err := c07NewRM(lim)
 	if err != nil {
 		return nil, err
 	}
@@ -180,6 +179,7 @@ const (
 // handler under a name kills the registration for good.
 type c07Reg struct {
 	seq  uint32
+	node int // the host it is registered on: 0 = L, 1+k = dialer k
 	name protocol.ID
 	kind byte
 	dead bool
@@ -197,7 +197,14 @@ func (r *c07Reg) String() string {
 	if r.dead {
 		d = " (REMOVED)"
 	}
-	return fmt.Sprintf("#%d %s/%c%s", r.seq, r.name, r.kind, d)
+	return fmt.Sprintf("#%d %s/%c%s on %s", r.seq, r.name, r.kind, d, c07NodeName(r.node))
+}
+
+func c07NodeName(n int) string {
+	if n == 0 {
+		return "L"
+	}
+	return "D" + c07ConnName[n-1]
 }
 
 const c07NonceLen = 16
@@ -211,6 +218,45 @@ type c07Inv struct {
 	nonce    [c07NonceLen]byte
 	gotNonce bool
 	deadAt   bool // the registration had been removed when the handler was invoked
+	// the resource scope of the stream the handler got, as seen when the handler was invoked
+	scopeSeen bool        // Stream.Scope() is a network.StreamManagementScope (it is, for swarm streams)
+	charged   protocol.ID // the protocol scope the stream is attached to (ProtocolScope().Protocol())
+	isCharged bool        // ... it is attached to one
+	refused   bool        // the host's resource manager refused to attach this stream to a protocol scope
+}
+
+// c07Cfg is the configuration of a fixture beyond the state the search explores: what the LISTENER's resource manager
+// limits and which handlers the DIALERS have (from before they connect, never changed: the listener's identify
+// knowledge about them is accurate and nothing is ever removed there).
+type c07Cfg struct {
+	Lim c07Lim
+	DH  []c07DH
+}
+
+// c07DH: both dialers have a handler of this kind registered under c07U[P].
+type c07DH struct {
+	P    int
+	Kind byte
+}
+
+func (c c07Cfg) zero() bool { return c.Lim.Kind == 0 && len(c.DH) == 0 }
+
+func (c c07Cfg) String() string {
+	var parts []string
+	if c.Lim.Kind != 0 {
+		parts = append(parts, "listener limits the "+c.Lim.String())
+	}
+	if len(c.DH) > 0 {
+		var hs []string
+		for _, d := range c.DH {
+			hs = append(hs, fmt.Sprintf("%s:%c", c07U[d.P], d.Kind))
+		}
+		parts = append(parts, fmt.Sprintf("dialers handle %v", hs))
+	}
+	if len(parts) == 0 {
+		return "plain"
+	}
+	return strings.Join(parts, "; ")
 }
 
 // ---------- the instance ----------
@@ -221,8 +267,11 @@ type c07Inst struct {
 	L     *c07Node
 	D     [2]*c07Node
 
+	cfg c07Cfg
+
 	mu      sync.Mutex
-	live    map[protocol.ID]*c07Reg
+	live    [3]map[protocol.ID]*c07Reg // per host (0 = L, 1+k = dialer k): the live registration under each name
+	all     [3][]*c07Reg               // per host: every registration there ever was
 	nextReg uint32
 	log     []*c07Inv
 	nonce   uint64
@@ -230,8 +279,11 @@ type c07Inst struct {
 	broken string // infrastructure failure while building / driving the fixture (never a violation)
 	key    string // state key after the last operation
 	pkey   string // the part of it that determines the outcome of an open (handlers + knowledge)
-	saved  [2][]protocol.ID
+	saved  [2][]protocol.ID // what dialer k knew about L's protocols when the state was entered
+	savedL [2][]protocol.ID // what L knew about dialer k's protocols after the initial identify exchange (accurate for good: the dialers' handlers never change)
 	hist   []string
+	ops    []c07Op       // the history as operations (to rebuild the state on a fixture with another configuration)
+	held   []*c07Attempt // opens kept open in the background (see holdProbes)
 
 	// derived by snapshot(), used by enabled()
 	muxOrder  []protocol.ID // the listener's mux entries (without identify's), in mux order
@@ -246,17 +298,29 @@ func (in *c07Inst) fail(f string, a ...any) {
 	}
 }
 
-func c07NewInst(ck *c07Checker) *c07Inst {
-	in := &c07Inst{nw: c07NewNet(), live: map[protocol.ID]*c07Reg{}, ck: ck, blank: ck.blank}
+func c07NewInst(ck *c07Checker, cfg c07Cfg) *c07Inst {
+	in := &c07Inst{nw: c07NewNet(), ck: ck, blank: ck.blank, cfg: cfg}
+	for n := range in.live {
+		in.live[n] = map[protocol.ID]*c07Reg{}
+	}
 	var err error
-	if in.L, err = c07NewNode(in.nw, "L", true, false, in.blank); err != nil {
+	if in.L, err = c07NewNode(in.nw, "L", true, false, in.blank, cfg.Lim); err != nil {
 		in.fail("listener: %v", err)
 		return in
 	}
 	for k := range in.D {
-		if in.D[k], err = c07NewNode(in.nw, "D"+c07ConnName[k], false, k == c07Limited, in.blank); err != nil {
+		if in.D[k], err = c07NewNode(in.nw, "D"+c07ConnName[k], false, k == c07Limited, in.blank, c07Lim{}); err != nil {
 			in.fail("dialer %s: %v", c07ConnName[k], err)
 			return in
+		}
+		// the dialer's own handlers: there before it connects, so the initial identify exchange reports them
+		for _, dh := range cfg.DH {
+			reg := in.newReg(1+k, c07U[dh.P], dh.Kind)
+			if dh.Kind == c07Match {
+				in.D[k].h.SetStreamHandlerMatch(reg.name, c07MatchA, in.handler(reg))
+			} else {
+				in.D[k].h.SetStreamHandler(reg.name, in.handler(reg))
+			}
 		}
 		ctx, cancel := context.WithTimeout(network.WithAllowLimitedConn(context.Background(), "c07"), time.Minute)
 		err = in.D[k].h.Connect(ctx, peer.AddrInfo{ID: in.L.id, Addrs: in.L.h.Network().ListenAddresses()})
@@ -283,8 +347,19 @@ func c07NewInst(ck *c07Checker) *c07Inst {
 			in.fail("listener: connection from %s dialer: %d conns / wrong Limited flag", c07ConnName[k], len(cs))
 		}
 	}
+	for k := range in.D {
+		in.savedL[k], _ = in.L.h.Peerstore().GetProtocols(in.D[k].id)
+	}
 	in.snapshot()
 	return in
+}
+
+// node returns host n (0 = L, 1+k = dialer k).
+func (in *c07Inst) node(n int) *c07Node {
+	if n == 0 {
+		return in.L
+	}
+	return in.D[n-1]
 }
 
 func (in *c07Inst) close() {
@@ -313,6 +388,15 @@ func c07Tag(r *c07Reg) []byte {
 func (in *c07Inst) handler(reg *c07Reg) network.StreamHandler {
 	return func(s network.Stream) {
 		inv := &c07Inv{reg: reg, proto: s.Protocol(), remote: s.Conn().RemotePeer(), limited: s.Conn().Stat().Limited}
+		if sms, ok := s.Scope().(network.StreamManagementScope); ok {
+			inv.scopeSeen = true
+			if ps := sms.ProtocolScope(); ps != nil {
+				inv.charged, inv.isCharged = ps.Protocol(), true
+			}
+		}
+		if w, ok := s.Scope().(*c07SScope); ok {
+			inv.refused = w.wasRefused()
+		}
 		in.mu.Lock()
 		inv.deadAt = reg.dead
 		in.log = append(in.log, inv)
@@ -340,7 +424,9 @@ func (in *c07Inst) handler(reg *c07Reg) network.StreamHandler {
 			s.Reset()
 			return
 		}
-		_ = s.SetReadDeadline(time.Now().Add(2 * time.Minute))
+		// (an hour of VIRTUAL time: streams held open in the background while other opens are probed must not run
+		// into it; every stream is closed or reset by the dialer, at the latest when the hosts are closed)
+		_ = s.SetReadDeadline(time.Now().Add(time.Hour))
 		if _, err := io.Copy(io.Discard, s); err != nil {
 			s.Reset()
 			return
@@ -349,38 +435,55 @@ func (in *c07Inst) handler(reg *c07Reg) network.StreamHandler {
 	}
 }
 
-func (in *c07Inst) newReg(name protocol.ID, kind byte) *c07Reg {
+func (in *c07Inst) newReg(node int, name protocol.ID, kind byte) *c07Reg {
 	in.mu.Lock()
 	defer in.mu.Unlock()
-	if old := in.live[name]; old != nil {
+	if old := in.live[node][name]; old != nil {
 		old.dead = true
 	}
 	in.nextReg++
-	r := &c07Reg{seq: in.nextReg, name: name, kind: kind}
-	in.live[name] = r
+	r := &c07Reg{seq: in.nextReg, node: node, name: name, kind: kind}
+	in.live[node][name] = r
+	in.all[node] = append(in.all[node], r)
 	return r
 }
 
-func (in *c07Inst) kill(name protocol.ID) {
+func (in *c07Inst) kill(node int, name protocol.ID) {
 	in.mu.Lock()
 	defer in.mu.Unlock()
-	if old := in.live[name]; old != nil {
+	if old := in.live[node][name]; old != nil {
 		old.dead = true
 	}
-	delete(in.live, name)
+	delete(in.live[node], name)
 }
 
-// acceptors returns the live registrations that are registered for, or match, p.
-func (in *c07Inst) acceptors(p protocol.ID) []*c07Reg {
+// acceptorsAt returns the live registrations on host node that are registered for, or match, p.
+func (in *c07Inst) acceptorsAt(node int, p protocol.ID) []*c07Reg {
 	in.mu.Lock()
 	defer in.mu.Unlock()
 	var out []*c07Reg
 	for _, u := range c07U {
-		if r := in.live[u]; r != nil && r.accepts(p) {
+		if r := in.live[node][u]; r != nil && r.accepts(p) {
 			out = append(out, r)
 		}
 	}
 	return out
+}
+
+// acceptors: the listener's.
+func (in *c07Inst) acceptors(p protocol.ID) []*c07Reg { return in.acceptorsAt(0, p) }
+
+// everAccepted: has host node EVER had a handler (live or removed since) registered for, or matching, p?
+// Knowledge about a protocol for which this is false is not "earlier knowledge", stale or otherwise: it was never true.
+func (in *c07Inst) everAccepted(node int, p protocol.ID) bool {
+	in.mu.Lock()
+	defer in.mu.Unlock()
+	for _, r := range in.all[node] {
+		if r.accepts(p) {
+			return true
+		}
+	}
+	return false
 }
 
 // ---------- operations of the state search ----------
@@ -467,7 +570,7 @@ func (in *c07Inst) apply(o c07Op) error {
 	}
 	switch o.Kind {
 	case c07OpSetExact:
-		h := in.handler(in.newReg(name, c07Exact))
+		h := in.handler(in.newReg(0, name, c07Exact))
 		if o.Mux {
 			in.L.h.Mux().AddHandler(name, func(_ protocol.ID, rwc io.ReadWriteCloser) error {
 				h(rwc.(network.Stream))
@@ -477,7 +580,7 @@ func (in *c07Inst) apply(o c07Op) error {
 			in.L.h.SetStreamHandler(name, h)
 		}
 	case c07OpSetMatch:
-		h := in.handler(in.newReg(name, c07Match))
+		h := in.handler(in.newReg(0, name, c07Match))
 		if o.Mux {
 			in.L.h.Mux().AddHandlerWithFunc(name, c07MatchA, func(_ protocol.ID, rwc io.ReadWriteCloser) error {
 				h(rwc.(network.Stream))
@@ -492,7 +595,7 @@ func (in *c07Inst) apply(o c07Op) error {
 		} else {
 			in.L.h.RemoveStreamHandler(name)
 		}
-		in.kill(name)
+		in.kill(0, name)
 	case c07OpClear:
 		for _, d := range in.D {
 			if err := d.h.Peerstore().SetProtocols(in.L.id); err != nil {
@@ -509,6 +612,7 @@ func (in *c07Inst) apply(o c07Op) error {
 	}
 	synctest.Wait()
 	in.hist = append(in.hist, c07ShowOp(o))
+	in.ops = append(in.ops, o)
 	in.snapshot()
 	return nil
 }
@@ -551,14 +655,14 @@ func (in *c07Inst) snapshot() {
 		}
 		in.muxOrder = append(in.muxOrder, p)
 		k := byte('?') // an entry the harness did not (or no longer does) account for
-		if r := in.live[p]; r != nil {
+		if r := in.live[0][p]; r != nil {
 			k = r.kind
 		}
 		hs = append(hs, fmt.Sprintf("%s:%c", p, k))
 	}
 	var lv []string
 	for _, u := range c07U {
-		if r := in.live[u]; r != nil {
+		if r := in.live[0][u]; r != nil {
 			lv = append(lv, fmt.Sprintf("%s:%c", u, r.kind))
 		}
 	}
@@ -636,7 +740,7 @@ func (in *c07Inst) enabled(alphabet []c07Op) []int {
 				kind = c07Match
 			}
 			in.mu.Lock()
-			r := in.live[c07U[o.P]]
+			r := in.live[0][c07U[o.P]]
 			in.mu.Unlock()
 			same := r != nil && r.kind == kind && last == c07U[o.P]
 			if same && (o.Mux || !in.snapStale) {
@@ -673,4 +777,34 @@ func (in *c07Inst) restore(k int) {
 	if err := in.D[k].h.Peerstore().SetProtocols(in.L.id, in.saved[k]...); err != nil {
 		in.fail("SetProtocols: %v", err)
 	}
+}
+
+// What L knows about the dialers' protocols when a group of opens starts (reverse opens, L -> dialer).
+const (
+	c07LKnowAccurate = 'A' // what the initial identify exchange reported (accurate for good: the dialers' handlers never change)
+	c07LKnowUnknown  = 'U' // forgotten: the open has to negotiate
+)
+
+// restoreL puts L's knowledge about dialer k's protocols to the given mode.
+func (in *c07Inst) restoreL(k int, mode byte) {
+	var ps []protocol.ID
+	if mode == c07LKnowAccurate {
+		ps = in.savedL[k]
+	}
+	if err := in.L.h.Peerstore().SetProtocols(in.D[k].id, ps...); err != nil {
+		in.fail("SetProtocols: %v", err)
+	}
+}
+
+// knowledge returns what host `of` currently believes host `about` supports, restricted to the universe, sorted.
+func (in *c07Inst) knowledge(of, about int) []string {
+	ps, _ := in.node(of).h.Peerstore().GetProtocols(in.node(about).id)
+	var out []string
+	for _, p := range ps {
+		if c07InU(p) {
+			out = append(out, string(p))
+		}
+	}
+	sort.Strings(out)
+	return out
 }
